@@ -152,7 +152,8 @@ def run(chk):
         r = enginerun.run_case(case["machine"], case["input"], case["plans"], max_data=case.get("max_data"),
                                max_steps=MAX_STEPS)
         obs = {"errors": list(r.errors), "view": c01.impl_view(r), "reqs": [q for q in r.requests if q["queue"] == "f"],
-               "refusals": r.refusals, "terminal_refusals": r.terminal_refusals,
+               "refusals": r.refusals, "terminal_refusals": r.terminal_refusals, "history": r.history,
+               "notes": [n["body"]["detail"] for n in r.notifications], "all_reqs": list(r.requests),
                "cause_text_decides": r.cause_text_decides}
         start = len(lines)
         lines.append(c01.model_line(case["machine"], case["input"], r.exec_arn, r.plans.oracle(),
@@ -238,6 +239,17 @@ def check_case(chk, case, obs, answers):
                 chk.report("impl-violates-law", dict(cview, attempt=i), impl={"payload": q["payload"]}, model={"payload": want},
                            law="a retried state is re-run on its original raw input")
                 return
+    # --- the instants, taken from the timed reference semantics as a whole: every history event, every request's arrival
+    # at the worker (the retry instants of the law below among them) and the end of the execution
+    if a[0] == "ok" and m["status"] in ("SUCCEEDED", "FAILED") and "history" in obs:
+        mode, hp, nev = enginerun.compare_history(case["machine"], m, obs["history"], len(obs["all_reqs"]), timed=True,
+                                                  request_instants=[q["t"] for q in obs["all_reqs"]])
+        nmode, np_ = enginerun.compare_notifications(m, obs["notes"], case["input"], timed=True)
+        chk.dist("timed_vs_Asl.run.%s" % mode)
+        if hp or np_:
+            chk.report("impl-differs-from-spec", cview, impl={"differences": (hp + np_)[:3], "mode": mode}, model={"endTime": m.get("endTime")},
+                       law="history events, request instants and the end of the execution are at the instants Asl.run predicts")
+            return
     # --- the decisions and their timing
     decisions = [x.split("\t") for x in answers[1:]]
     t_expected = None
